@@ -41,7 +41,7 @@ func GenFunc(prog *Prog, fn *ssa.Function, fc *FuncContract) *VC {
 		fr.freeVars = append(fr.freeVars, Val{T: name, Typ: fv.Type()})
 	}
 	lk := func(name string) (Val, bool) { return vc.paramLookup(fr, name) }
-	ctx := &SpecCtx{vc: vc, lookup: lk, st: st0, oldSt: st0, oldLookup: lk, pkg: fn.Pkg.Pkg}
+	ctx := &SpecCtx{vc: vc, lookup: lk, st: st0, oldSt: st0, oldLookup: lk, pkg: fn.Pkg.Pkg, fnName: fn.Name()}
 	var reqs []string
 	for _, rq := range fc.Requires {
 		t, err := ctx.EvalBool(rq.E)
@@ -84,7 +84,7 @@ func GenFunc(prog *Prog, fn *ssa.Function, fc *FuncContract) *VC {
 			}
 			return vc.paramLookup(fr, name)
 		}
-		ctx2 := &SpecCtx{vc: vc, lookup: lk2, st: exitSt, oldSt: st0, oldLookup: lk, pkg: fn.Pkg.Pkg}
+		ctx2 := &SpecCtx{vc: vc, lookup: lk2, st: exitSt, oldSt: st0, oldLookup: lk, pkg: fn.Pkg.Pkg, fnName: fn.Name()}
 		for k, en := range fc.Ensures {
 			t, err := ctx2.EvalBool(en.E)
 			if err != nil {
